@@ -85,8 +85,14 @@ func tarHeaderOf(e UEntry) *tar.Header {
 			h.ChangeTime = time.Unix(e.Ctime, 0)
 		}
 	}
-	if e.Typ == tar.TypeReg || e.Typ == tar.TypeRegA {
+	if hasBodyType(e.Typ) {
 		h.Size = int64(len(e.Body))
+	}
+	if e.Typ == tar.TypeGNUSparse {
+		// an old-GNU sparse header exists in the GNU format only; its sparse map is patched in afterwards
+		// (patchSparseHeader: archive/tar does not write one)
+		h.Format = tar.FormatGNU
+		h.AccessTime, h.ChangeTime = time.Time{}, time.Time{}
 	}
 	if e.Typ == tar.TypeXGlobalHeader {
 		// the record's own name is kept (tar writes it; Unpack sees it as the entry name)
@@ -98,7 +104,24 @@ func tarHeaderOf(e UEntry) *tar.Header {
 	return h
 }
 
+// hasBodyType: entry types whose header announces a body: regular files in their three spellings ('0', NUL,
+// '7' = contiguous file, which archive/tar reads as a regular file) and the old-GNU sparse file 'S'
+// (seed C12-h: a type gate decided from the header's file mode accepts '7', 'S' and the hard link '1',
+// whose bodies and names are then silently skipped).
+func hasBodyType(t byte) bool {
+	return t == tar.TypeReg || t == tar.TypeRegA || t == tar.TypeCont || t == tar.TypeGNUSparse
+}
+
 func buildTarGz(es []UEntry) []byte {
+	sparse := false
+	for _, e := range es {
+		if e.Typ == tar.TypeGNUSparse {
+			sparse = true
+		}
+	}
+	if sparse {
+		return gzDefault(buildTarRaw(es))
+	}
 	var buf bytes.Buffer
 	gz := gzip.NewWriter(&buf)
 	tw := tar.NewWriter(gz)
@@ -114,6 +137,69 @@ func buildTarGz(es []UEntry) []byte {
 	tw.Close()
 	gz.Close()
 	return buf.Bytes()
+}
+
+func gzDefault(raw []byte) []byte {
+	var buf bytes.Buffer
+	gz := gzip.NewWriter(&buf)
+	gz.Write(raw)
+	gz.Close()
+	return buf.Bytes()
+}
+
+// buildTarRaw writes the uncompressed tar stream and gives every 'S' entry the sparse map of a file without
+// holes (one fragment: offset 0, the whole body; real size = body size), which is what GNU tar writes for a
+// fully allocated file it was told to treat as sparse. archive/tar reads such an entry as typeflag 'S' with a
+// regular-file mode and the body as content.
+func buildTarRaw(es []UEntry) []byte {
+	var buf bytes.Buffer
+	tw := tar.NewWriter(&buf)
+	var patch []int
+	var sizes []int
+	for _, e := range es {
+		h := tarHeaderOf(e)
+		tw.Flush()
+		if err := tw.WriteHeader(h); err != nil {
+			continue
+		}
+		if e.Typ == tar.TypeGNUSparse {
+			patch = append(patch, buf.Len()-512) // the header block proper is the last one WriteHeader wrote
+			sizes = append(sizes, len(e.Body))
+		}
+		if h.Size > 0 {
+			tw.Write([]byte(e.Body))
+		}
+	}
+	tw.Close()
+	raw := buf.Bytes()
+	for i, off := range patch {
+		if off >= 0 && off+512 <= len(raw) {
+			patchSparseHeader(raw[off:off+512], sizes[i])
+		}
+	}
+	return raw
+}
+
+// patchSparseHeader fills the old-GNU sparse fields of a header block (sparse[0] = (0, size) at 386, isextended
+// = 0 at 482, realsize at 483) and recomputes the checksum.
+func patchSparseHeader(blk []byte, size int) {
+	oct := func(off, n int, v int) {
+		copy(blk[off:off+n], []byte(fmt.Sprintf("%0*o\x00", n-1, v)))
+	}
+	for i := 386; i < 495; i++ {
+		blk[i] = 0
+	}
+	oct(386, 12, 0)
+	oct(398, 12, size)
+	oct(483, 12, size)
+	for i := 148; i < 156; i++ {
+		blk[i] = ' '
+	}
+	sum := 0
+	for _, b := range blk {
+		sum += int(b)
+	}
+	copy(blk[148:156], []byte(fmt.Sprintf("%06o\x00 ", sum)))
 }
 
 // decodeTar reads back what archive/tar delivers for the stream (the model is fed the *decoded*
@@ -723,6 +809,49 @@ func hasDotDotAfterName(target string) bool {
 	return false
 }
 
+// linkReplacedExisting: the destination holds a link that a link entry of the archive put where something else
+// already was: an earlier entry of the same name (a file, a directory, a link with another target) or an
+// object that was in dst before the run. os.Symlink never replaces anything, and the unchanged Unpack stops
+// at such an entry ("file exists"); a tree in which it happened is not an instance of a recorded mechanism,
+// whatever the targets look like (seed C04-h: the name is removed and the link created again).
+// before / after: snapshots keyed by arena-relative path; dstRel: where dst physically is.
+func linkReplacedExisting(decoded []UEntry, before, after map[string]FSNode, dstRel string) (string, bool) {
+	rel := func(name string) (string, bool) {
+		r := filepath.Clean(strings.TrimPrefix(name, "/"))
+		if r == "." || r == ".." || strings.HasPrefix(r, "../") || strings.HasPrefix(r, "/") {
+			return "", false
+		}
+		return r, true
+	}
+	for k := len(decoded) - 1; k >= 0; k-- {
+		e := decoded[k]
+		if e.Typ != tar.TypeSymlink || e.Name == "" {
+			continue
+		}
+		p, ok := rel(e.Name)
+		if !ok {
+			continue
+		}
+		a, there := after[filepath.Join(dstRel, p)]
+		if !there || a.Kind != "l" || a.Data != e.Link {
+			continue
+		}
+		if b, was := before[filepath.Join(dstRel, p)]; was && (b.Kind != "l" || b.Data != e.Link) {
+			return p, true
+		}
+		for j := 0; j < k; j++ {
+			o := decoded[j]
+			if o.Name == "" || (o.Typ != tar.TypeReg && o.Typ != tar.TypeRegA && o.Typ != tar.TypeDir && o.Typ != tar.TypeSymlink) {
+				continue
+			}
+			if q, ok := rel(o.Name); ok && q == p && (o.Typ != tar.TypeSymlink || o.Link != e.Link) {
+				return p, true
+			}
+		}
+	}
+	return "", false
+}
+
 func unpackSignature(c *UCase, what string) string {
 	// F3: a link whose target has '..' after a name (lexically inside, physically elsewhere)
 	for _, e := range c.Entries {
@@ -905,6 +1034,129 @@ func genUCase(r *Rng, arena string) *UCase {
 	return c
 }
 
+// ---------- shaped cases ----------
+
+// genShapedUCase: one archive around a mechanism that random entry lists practically never assemble (every path
+// stays inside the arena: decoys p/q/outside.txt, p/q/dst-evil, p/q/dstx, p/up.txt).
+func genShapedUCase(r *Rng, k int) (*UCase, string) {
+	c := &UCase{Dst: "p/q/dst", Init: baseInit(), Fault: "none"}
+	L := func(n, t string) UEntry { return UEntry{Name: n, Typ: tar.TypeSymlink, Link: t, Mode: 0777, Mtime: 1400000000} }
+	F := func(n, b string) UEntry {
+		return UEntry{Name: n, Typ: tar.TypeReg, Body: b, Mode: int64([]int{0644, 0600, 0444}[r.Intn(3)]), Mtime: 1400000001 + int64(r.Intn(500))}
+	}
+	D := func(n string) UEntry {
+		return UEntry{Name: n, Typ: tar.TypeDir, Mode: int64([]int{0755, 0700, 0750, 0777}[r.Intn(4)]), Mtime: 1400000002 + int64(r.Intn(500))}
+	}
+	switch k % 3 {
+	case 0:
+		// two links whose (directory of the raw name, target) pairs name lexically the same place when the raw
+		// names are rooted, the first staying in dst, the second leaving it; then an entry of the second link's
+		// name (seed C01-h). 15% each: no leading slash, the two links in the other order (both must be refused).
+		sh := []struct {
+			dir, t1, t2 string
+			dirVictim   bool
+		}{
+			{"", "outside.txt", "../outside.txt", false},
+			{"", "dst-evil/x", "../dst-evil/x", false},
+			{"", "fresh.txt", "../fresh.txt", false},
+			{"", "dst-evil", "../dst-evil", true},
+			{"cfg/", "../dstx", "../dstx", true},
+			{"s/t/", "../../up.txt", "../../up.txt", false},
+			{"cfg/", "../outside.txt", "../outside.txt", false},
+		}[r.Intn(7)]
+		sl := "/"
+		if x := r.Intn(100); x < 15 {
+			sl = ""
+		} else if x < 30 {
+			sl = "//"
+		}
+		first := L(sl+sh.dir+r.Pick([]string{"first", "a", "k1"}), sh.t1)
+		secondName := r.Pick([]string{"second", "k2", "m"})
+		second := L(sl+secondName, sh.t2)
+		if r.Chance(15) {
+			first, second = second, first
+		}
+		c.Entries = append(c.Entries, first)
+		if r.Chance(30) {
+			c.Entries = append(c.Entries, F("b", "between"))
+		}
+		c.Entries = append(c.Entries, second)
+		own := r.Pick([]string{"", "/"}) + secondName
+		if sh.dirVictim {
+			c.Entries = append(c.Entries, D(own+"/"))
+		} else {
+			c.Entries = append(c.Entries, F(own, "pwn"))
+		}
+		return c, "same-rooted-key-links"
+	case 1:
+		// a link entry whose name is taken by an empty directory, a file, another link, or earlier content of
+		// dst, and that an earlier link walks through and climbs back from (seed C04-h). The traversed component
+		// is always there before the climbing link is made.
+		a, b := r.Pick([]string{"a", "d", "n"}), r.Pick([]string{"b", "e"})
+		ab := a + "/" + b
+		x := r.Pick([]string{"x", "k", a + "/x"})
+		climb := ab + "/../.."
+		if strings.Contains(x, "/") {
+			climb = b + "/../.."
+		}
+		climb += r.Pick([]string{"", "/outside.txt", "/dst-evil"})
+		shallow := "."
+		switch r.Intn(4) {
+		case 0:
+			c.Entries = []UEntry{D(ab + "/"), L(x, climb), L(ab, shallow)}
+		case 1:
+			c.Entries = []UEntry{D(a + "/c/"), L(ab, "c"), L(x, climb), L(ab, shallow)}
+		case 2:
+			c.Init = append(c.Init, FSNode{Path: "p/q/dst/" + a, Kind: "d", Perm: 0755}, FSNode{Path: "p/q/dst/" + ab, Kind: "d", Perm: 0755}, FSNode{Path: "p/q/dst/x", Kind: "l", Data: ab + "/../.."})
+			c.Entries = []UEntry{L(ab, shallow)}
+		default:
+			c.Entries = []UEntry{F(ab, "in the way"), L(x, climb), L(ab, shallow)}
+		}
+		if r.Chance(30) {
+			c.Entries = append(c.Entries, F("z", "after"))
+		}
+		return c, "link-over-taken-name"
+	default:
+		// a file spelled with a typeflag that is not one of the three restorable ones but has a regular-file
+		// mode: contiguous '7' and sparse 'S' (with bodies), hard link '1' (seed C12-h), among ordinary entries
+		names := []string{"a", "b", "d/a", "d/e/f", "main.tf"}
+		n := 1 + r.Intn(3)
+		firstFile := ""
+		for i := 0; i < n; i++ {
+			if r.Chance(25) {
+				c.Entries = append(c.Entries, D(r.Pick([]string{"d/", "g/", "d/e/"})))
+				continue
+			}
+			nm := names[(k/3+i)%len(names)]
+			if firstFile == "" {
+				firstFile = nm
+			}
+			c.Entries = append(c.Entries, F(nm, r.Pick([]string{"", "x", "hello"})))
+		}
+		odd := F(r.Pick([]string{"odd.tf", "d/odd.bin", "h/i/odd", "/odd"}), r.Pick([]string{"", "c", "contiguous or sparse body"}))
+		switch r.Intn(3) {
+		case 0:
+			odd.Typ = tar.TypeCont
+			odd.Fmt = r.Pick([]string{"", "gnu", "auto"})
+		case 1:
+			odd.Typ = tar.TypeGNUSparse
+		default:
+			odd.Typ = tar.TypeLink
+			odd.Body = ""
+			odd.Link = firstFile
+			if odd.Link == "" {
+				odd.Link = "a"
+			}
+		}
+		if pos := r.Intn(2 * (len(c.Entries) + 1)); pos < len(c.Entries) {
+			c.Entries = append(c.Entries[:pos], append([]UEntry{odd}, c.Entries[pos:]...)...)
+		} else {
+			c.Entries = append(c.Entries, odd)
+		}
+		return c, "file-under-odd-typeflag"
+	}
+}
+
 // viaLinkShapes: an initial link and the spelling of dst that passes through it (or is it); every one names
 // the directory p/q/dst.
 var viaLinkShapes = []struct{ link, target, dst string }{
@@ -961,6 +1213,10 @@ func unpackCorpus(arena string) []*UCase {
 		viaLink(c, k, arena)
 		return c
 	}
+	mkInit := func(extra []FSNode, es ...UEntry) *UCase {
+		return &UCase{Dst: "p/q/dst", Fault: "none", Entries: es, Init: append(baseInit(), extra...)}
+	}
+	Ty := func(e UEntry, t byte) UEntry { e.Typ = t; return e }
 	L := func(n, t string) UEntry { return UEntry{Name: n, Typ: tar.TypeSymlink, Link: t, Mode: 0777, Mtime: 1400000000} }
 	F := func(n, b string) UEntry { return UEntry{Name: n, Typ: tar.TypeReg, Body: b, Mode: 0644, Mtime: 1400000001} }
 	Fm := func(n, b string, m int64) UEntry { return UEntry{Name: n, Typ: tar.TypeReg, Body: b, Mode: m, Mtime: 1400000001} }
@@ -1058,12 +1314,45 @@ func unpackCorpus(arena string) []*UCase {
 		mkVia(7, F("a", "1")),
 		mkVia(0, L("l", "../dst-evil"), F("l/x", "refused all the same")),
 		mkVia(2, L("l", "../outside.txt"), F("l", "refused all the same")),
+		// two links with leading-slash names whose (directory of the raw name, target) pairs are lexically the same
+		// place when joined at the root - Join("/", "outside.txt") == Join("/", "../outside.txt") - although only the
+		// first stays in dst; then a file / directory entry of the second link's own name (seed C01-h: a per-call
+		// memo of accepted link destinations keyed by the raw, rooted name lets the second inherit the verdict of
+		// the first). The unchanged code refuses the second link. Controls: the escaping link alone, the two in the
+		// other order, the same without leading slashes.
+		mk(L("/first", "outside.txt"), L("/second", "../outside.txt"), F("second", "pwn")),
+		mk(L("/cfg/a", "../dstx"), L("/second", "../dstx"), D("second/", 0755)),
+		mk(L("/first", "dst-evil/x"), L("//second", "../dst-evil/x"), F("/second", "pwn")),
+		mk(L("/s/t/a", "../../up.txt"), F("b", "between"), L("/second", "../../up.txt"), Fm("second", "pwn", 0600)),
+		mk(L("/k1/a", "../dst-evil"), L("/k2", "../dst-evil"), D("/k2/", 0700)),
+		mk(L("/second", "../outside.txt"), F("second", "pwn")),
+		mk(L("/second", "../outside.txt"), L("/first", "outside.txt"), F("second", "pwn")),
+		mk(L("first", "outside.txt"), L("second", "../outside.txt"), F("second", "pwn")),
+		// a link entry whose name is taken: by an empty directory, by another link (both of the same archive), by
+		// what an earlier extraction left in dst. The unchanged code stops with "file exists" and x keeps resolving
+		// inside dst (seed C04-h: the taken name is removed and the link created again, so a component that the
+		// earlier link x walks through and climbs back from becomes shallower and x leads out of dst). Every shape
+		// creates the traversed component BEFORE x: with x first the unchanged code has F3.
+		mk(D("a/b/", 0755), L("x", "a/b/../../outside.txt"), L("a/b", ".")),
+		mk(D("a/c/", 0755), L("a/b", "c"), L("x", "a/b/../.."), L("a/b", ".")),
+		mkInit([]FSNode{{Path: "p/q/dst/a", Kind: "d", Perm: 0755}, {Path: "p/q/dst/a/b", Kind: "d", Perm: 0755}, {Path: "p/q/dst/x", Kind: "l", Data: "a/b/../.."}}, L("a/b", ".")),
+		mk(D("d/e/", 0750), L("d/x", "e/../../outside.txt"), F("b", "between"), L("d/e", ".")),
+		mk(F("a/b", "a file in the way"), L("x", "a/b/../.."), L("a/b", ".")),
+		// types that archive/tar gives a regular-file mode but that are not regular files: '7' (contiguous file) and
+		// the old-GNU sparse file 'S', both with a body, and the hard link '1' (seed C12-h: accepted by a type gate
+		// that looks at the mode, then skipped with their bodies: success and a partial tree). The unchanged code
+		// refuses them as unsupported.
+		mk(F("a", "plain"), Ty(F("main.tf", "contiguous body"), tar.TypeCont)),
+		mk(D("d/", 0755), Ty(F("d/sparse.bin", "sparse body"), tar.TypeGNUSparse), F("z", "after")),
+		mk(F("a.txt", "first name"), Ty(L("copy-of-a.txt", "a.txt"), tar.TypeLink)),
+		mk(Ty(F("only", ""), tar.TypeCont)),
+		mk(F("a", "1"), Ty(F("d/e/deep", "contiguous, nested"), tar.TypeCont), D("g/", 0700)),
 	}
 }
 
 func init() {
 	lanes["unpack"] = func(cfg *Config, rep *Report) {
-		rep.Rule = "archives of 1..12 entries over a 31-name universe (plain, nested, leading '/', './', '..' detours, sibling-prefix and parent escapes, through-link names) x {file, dir, symlink over 30 target shapes incl. absolute, chains, '..' after names, sibling prefix; hard link, fifo, devices, PAX global header} x modes x header times (2014 stamps next to the boundary pool 0, 1, 2^31-1, 2^31, 8^11 s and .4/.5/.6/.999999999 s fractions; header format PAX / GNU / chosen by archive/tar; for PAX and GNU an access and change time different from the mtime on 30% of the entries) x backslashes as ordinary bytes (7% of the names from a pool of 19: leading, doubled, after '/', inner, trailing, nothing but backslashes, mixed with '/'; 8% of the link targets from a pool of 17 whose separator-rewritten form would reach a decoy inside the arena, incl. the arena's own path spelled with backslashes) x optional pre-existing dst content x optional allow-list x destination shape (6% reached through a symbolic link: symlinked ancestor one or two levels up, dst itself a link to a directory, relative / absolute / '..' link targets, judged at the physical place; 12% given relative to the working directory, which is then the arena, p, p/q or a sibling of dst: one such case at a time inside its Chdir..Unpack section; put to the model with the arena as filesystem root when the working directory is the arena and no path spells the arena's absolute name, otherwise oracles only); with -umask other than 022 the same cases run under that umask without model comparison (oracles only); each unpacked into a fresh arena (dst + prefix-sharing siblings + decoy file); non-trivial = has a link, a '..', a duplicate name or a leading '/'; distinct by (init, entries, allow, dst spelling, working directory)"
+		rep.Rule = "archives of 1..12 entries over a 31-name universe (plain, nested, leading '/', './', '..' detours, sibling-prefix and parent escapes, through-link names) x {file, dir, symlink over 30 target shapes incl. absolute, chains, '..' after names, sibling prefix; hard link, fifo, devices, PAX global header} x modes x header times (2014 stamps next to the boundary pool 0, 1, 2^31-1, 2^31, 8^11 s and .4/.5/.6/.999999999 s fractions; header format PAX / GNU / chosen by archive/tar; for PAX and GNU an access and change time different from the mtime on 30% of the entries) x backslashes as ordinary bytes (7% of the names from a pool of 19: leading, doubled, after '/', inner, trailing, nothing but backslashes, mixed with '/'; 8% of the link targets from a pool of 17 whose separator-rewritten form would reach a decoy inside the arena, incl. the arena's own path spelled with backslashes) x optional pre-existing dst content x optional allow-list x destination shape (6% reached through a symbolic link: symlinked ancestor one or two levels up, dst itself a link to a directory, relative / absolute / '..' link targets, judged at the physical place; 12% given relative to the working directory, which is then the arena, p, p/q or a sibling of dst: one such case at a time inside its Chdir..Unpack section; put to the model with the arena as filesystem root when the working directory is the arena and no path spells the arena's absolute name, otherwise oracles only); with -umask other than 022 the same cases run under that umask without model comparison (oracles only); plus N/25 shaped archives after the random ones (a third each: two links with leading-slash names whose rooted (directory, target) pairs are lexically the same place, the first inside dst, the second outside, then a file or directory entry of the second link's name, with the controls no slash / other order; a link entry whose name is taken by an empty directory, a file, another link or earlier content of dst and which an earlier link walks through and climbs back from; a file under the typeflag '7' contiguous or 'S' old-GNU sparse (with bodies; the sparse map is patched into the header block) or a hard link '1' among ordinary entries); each unpacked into a fresh arena (dst + prefix-sharing siblings + decoy file); non-trivial = has a link, a '..', a duplicate name or a leading '/'; distinct by (init, entries, allow, dst spelling, working directory)"
 		r := NewRng(cfg.Seed)
 		if cfg.Work == "" {
 			rep.Broken = append(rep.Broken, "unpack lane needs -work")
@@ -1124,6 +1413,14 @@ func init() {
 					}
 				}
 			}
+		}
+		// shaped cases, on top of the N random ones and after them in the random stream (the random cases of a
+		// seed stay what they were): N/25 archives built around one order- or spelling-dependent mechanism each
+		for k, n := 0, cfg.N/25; k < n; k++ {
+			i := len(jobs)
+			c, shape := genShapedUCase(r, k)
+			rep.Count("shaped:" + shape)
+			jobs = append(jobs, job{idx: i, arena: mkArena(i), c: c})
 		}
 		// exact replay (-case): the recorded case takes the last slot and an arena of its own (the
 		// ordinary cases keep their arenas and their share of the random stream) and is run first, alone
@@ -1403,6 +1700,25 @@ func runUnpackCase(cfg *Config, rep *Report, umask int, idx int, c *UCase, arena
 	}
 	// ---- C12: an Unpack that reports success has processed the whole archive: its last file, directory
 	// or link entry is there (seed C12-e: a swallowed rejection ends the loop early with a nil error)
+	// ... and every entry that announces a file under another type than the three that can be restored - a
+	// contiguous file '7', a sparse file 'S' (both with a body), a hard link '1' (a second name of a file) - has
+	// either made Unpack fail or is there (seed C12-h: accepted by a type gate that looks at the header's
+	// mode, then skipped: nil and a partial tree). The unchanged code refuses these types.
+	if out.class == "ok" {
+		for _, e := range decoded {
+			if (e.Typ != tar.TypeCont && e.Typ != tar.TypeGNUSparse && e.Typ != tar.TypeLink) || e.Name == "" {
+				continue
+			}
+			rel := filepath.Clean(strings.TrimPrefix(e.Name, "/"))
+			if rel == "." || rel == ".." || strings.HasPrefix(rel, "../") {
+				continue
+			}
+			if _, there := am[filepath.Join(dstRel, rel)]; !there {
+				rep.AddOracle(OracleFailure{Property: "C12", Lane: "unpack", What: fmt.Sprintf("Unpack returned nil but the entry %q (typeflag '%c', %d bytes of content) was neither materialised nor reported: the destination is a partial tree", e.Name, e.Typ, len(e.Body)), Input: c, ReqIdx: idx + 1})
+				break
+			}
+		}
+	}
 	if out.class == "ok" {
 		for k := len(decoded) - 1; k >= 0; k-- {
 			e := decoded[k]
@@ -1480,8 +1796,12 @@ func runUnpackCase(cfg *Config, rep *Report, umask int, idx int, c *UCase, arena
 	}
 	if len(outside) > 0 {
 		sort.Strings(outside)
+		sig := unpackSignature(c, "outside")
+		if _, yes := linkReplacedExisting(decoded, bm, am, dstRel); yes {
+			sig = ""
+		}
 		rep.AddOracle(OracleFailure{Property: "C01", Lane: "unpack", What: "outside dst: " + strings.Join(outside, ", ") + " (result " + out.class + ")",
-			Input: c, Signature: unpackSignature(c, "outside"), ReqIdx: idx + 1})
+			Input: c, Signature: sig, ReqIdx: idx + 1})
 	}
 
 	// ---- C04: every link under dst resolves inside dst (or an allow-listed place) ----
@@ -1517,7 +1837,13 @@ func runUnpackCase(cfg *Config, rep *Report, umask int, idx int, c *UCase, arena
 		}
 		if !within(dstPhys, res) && !allowedAbs(res) {
 			sig := unpackSignature(c, "link")
-			rep.AddOracle(OracleFailure{Property: "C04", Lane: "unpack", What: fmt.Sprintf("link %s -> %q resolves to %s, outside dst (result %s)", n.Path, n.Data, strings.TrimPrefix(res, arena), out.class),
+			how := ""
+			if p, yes := linkReplacedExisting(decoded, bm, am, dstRel); yes {
+				// not the recorded mechanism (F3 needs no replacement): reported unsigned
+				sig = ""
+				how = fmt.Sprintf("; the link entry %q replaced what was at its name before (an earlier entry or earlier content of dst), which os.Symlink never does", p)
+			}
+			rep.AddOracle(OracleFailure{Property: "C04", Lane: "unpack", What: fmt.Sprintf("link %s -> %q resolves to %s, outside dst (result %s)%s", n.Path, n.Data, strings.TrimPrefix(res, arena), out.class, how),
 				Input: c, Signature: sig, ReqIdx: idx + 1})
 		} else if strings.HasPrefix(n.Data, "/") && !initLinks[n.Path] && !allowedAbs(physAbs(n.Data)) {
 			rep.AddOracle(OracleFailure{Property: "C04", Lane: "unpack", What: fmt.Sprintf("link %s has the absolute target %q and was accepted", n.Path, strings.Replace(n.Data, arena, "<arena>", 1)),
